@@ -1,0 +1,87 @@
+//go:build verif
+
+// Contracts for the deductive verifier under /verif (govc), package format
+// (C20, C04).  Comments only; the grammar is in /verif/DESIGN.md, appendix D.
+
+package format
+
+// ---------------------------------------------------------------------------
+// The sticky error of formatWriter (C20, first sentence).  Ghost state per
+// function: failed = 1 once a write through the caller's writer has returned an
+// error, firstErr = that error, calls = number of writes attempted.  Every
+// write site requires failed == 0 (nothing is written after a failure), and the
+// function reports firstErr.  All writes of the package go through these
+// functions (checked structurally by the C20 check).
+// ---------------------------------------------------------------------------
+
+//@ func writeStrings
+//@   requires w != nil
+//@   ghost failed = 0
+//@   ghost firstErr = 0
+//@   callsite (io.StringWriter).WriteString: requires[open] failed == 0
+//@   callsite (io.StringWriter).WriteString: requires[writer] $recv == w
+//@   callsite (io.StringWriter).WriteString: ghost firstErr = (failed == 0 && $result1 != nil) ? $result1 : firstErr
+//@   callsite (io.StringWriter).WriteString: ghost failed = ($result1 != nil) ? 1 : failed
+//@   ensures[first] failed == 1 ==> (result != nil && result == firstErr)
+//@   ensures[ok] failed == 0 ==> result == nil
+//@   loop 0: invariant[open] failed == 0 && w != nil
+//@   serves C20, C04
+
+//@ func writeTrimmedIndent
+//@   requires w != nil
+//@   ghost failed = 0
+//@   ghost firstErr = 0
+//@   callsite (io.StringWriter).WriteString: requires[open] failed == 0
+//@   callsite (io.StringWriter).WriteString: requires[writer] $recv == w
+//@   callsite (io.StringWriter).WriteString: ghost firstErr = (failed == 0 && $result1 != nil) ? $result1 : firstErr
+//@   callsite (io.StringWriter).WriteString: ghost failed = ($result1 != nil) ? 1 : failed
+//@   callsite writeStrings: requires[open] failed == 0
+//@   callsite writeStrings: requires[writer] $0 == w
+//@   callsite writeStrings: ghost firstErr = (failed == 0 && $result != nil) ? $result : firstErr
+//@   callsite writeStrings: ghost failed = ($result != nil) ? 1 : failed
+//@   ensures[first] failed == 1 ==> (result != nil && result == firstErr)
+//@   ensures[ok] failed == 0 ==> result == nil
+//@   loop 0: invariant[open] failed == 0 && w != nil && lastLen == 0
+//@   loop 0: decreases len(indents)
+//@   serves C20, C04
+
+//@ func (*formatWriter).s
+//@   requires !isnil(fw) && fw.w != nil
+//@   modifies fw.hasWritten, fw.startedLine, fw.err, alloc
+//@   ghost failed = 0
+//@   ghost firstErr = 0
+//@   ghost calls = 0
+//@   callsite (io.StringWriter).WriteString: requires[open] failed == 0 && old(fw.err) == nil
+//@   callsite (io.StringWriter).WriteString: requires[writer] $recv == fw.w
+//@   callsite (io.StringWriter).WriteString: ghost firstErr = (failed == 0 && $result1 != nil) ? $result1 : firstErr
+//@   callsite (io.StringWriter).WriteString: ghost failed = ($result1 != nil) ? 1 : failed
+//@   callsite (io.StringWriter).WriteString: ghost calls = calls + 1
+//@   callsite writeStrings: requires[open] failed == 0 && old(fw.err) == nil
+//@   callsite writeStrings: requires[writer] $0 == fw.w
+//@   callsite writeStrings: ghost firstErr = (failed == 0 && $result != nil) ? $result : firstErr
+//@   callsite writeStrings: ghost failed = ($result != nil) ? 1 : failed
+//@   callsite writeStrings: ghost calls = calls + 1
+//@   callsite writeTrimmedIndent: requires[open] failed == 0 && old(fw.err) == nil
+//@   callsite writeTrimmedIndent: requires[writer] $0 == fw.w
+//@   callsite writeTrimmedIndent: ghost firstErr = (failed == 0 && $result != nil) ? $result : firstErr
+//@   callsite writeTrimmedIndent: ghost failed = ($result != nil) ? 1 : failed
+//@   callsite writeTrimmedIndent: ghost calls = calls + 1
+//@   ensures[sticky] old(fw.err) != nil ==> (fw.err == old(fw.err) && calls == 0)
+//@   ensures[first] failed == 1 ==> (fw.err != nil && fw.err == firstErr)
+//@   ensures[ok] (failed == 0 && old(fw.err) == nil) ==> fw.err == nil
+//@   loop 0: invariant[open] !isnil(fw) && fw.w != nil && fw.w == old(fw.w) && failed == 0 && fw.err == nil && old(fw.err) == nil && 0 <= calls
+//@   loop 0: invariant[frame] framed()
+//@   loop 0: decreases len(s)
+//@   serves C20, C04
+
+//@ func (*formatWriter).push
+//@   requires !isnil(fw)
+//@   modifies fw.indents, fw.indents[len(fw.indents):cap(fw.indents)], alloc
+//@   ensures[len] len(fw.indents) == len(old(fw.indents)) + 1
+//@   serves C20, C04
+
+//@ func (*formatWriter).pop
+//@   requires !isnil(fw) && len(fw.indents) > 0
+//@   modifies fw.indents
+//@   ensures[len] len(fw.indents) == len(old(fw.indents)) - 1
+//@   serves C20, C04
